@@ -184,7 +184,18 @@ def run(ctx):
                             for cp in ret_paths(ctx.paths(cl[2]) or []):
                                 r = cp.end[1]
                                 okc = okc or (is_call(r, "::collect") and bool(find_calls(r, "str>::split_whitespace")) and mentions(r, lambda s: s == ("param", 2)) and only_maps(r))
-                        dflt = is_call(t, "Option::map_or", "Option::map_or_else", "Option::map") and bool(find_calls(t, "Vec::new", "Vec::<T>::new") or True)
+                        # absent -> empty: map_or(vec![], f) / map_or_else(Vec::new, f) / map(f).unwrap_or_default() / map(f).unwrap_or(vec![]) / .unwrap_or_else(Vec::new)
+                        t1 = strip_refs(t)
+                        if is_call(t1, "Option::unwrap_or_default") or (is_call(t1, "Option::unwrap_or", "Option::unwrap_or_else") and len(call_args(t1)) == 2 and
+                                                                          (is_call(strip_refs(call_args(t1)[1]), "Vec::new", "Vec::<T>::new") or
+                                                                           mentions(call_args(t1)[1], lambda s_: s_[0] == "const" and isinstance(s_[2], tuple) and s_[2][0] == "fn" and ("Vec" in s_[2][1] and s_[2][1].endswith("::new") or s_[2][1].endswith("Default::default"))))):
+                            t1 = strip_refs(call_args(t1)[0])
+                            dflt = is_call(t1, "Option::map")
+                        else:
+                            dflt = is_call(t1, "Option::map_or", "Option::map_or_else")
+                            if dflt:
+                                d0 = strip_refs(call_args(t1)[1])
+                                dflt = is_call(d0, "Vec::new", "Vec::<T>::new") or (isinstance(d0, tuple) and d0[:2] == ("agg", "closure")) or mentions(d0, lambda s_: s_[0] == "const" and isinstance(s_[2], tuple) and s_[2][0] == "fn")
                         ok = okc and dflt
                         why = "list %s is not the whitespace-separated items of map.get(key) in order (empty when absent)" % f
                     elif kind == "list-result":
